@@ -266,6 +266,58 @@ theorem message_numbers_exact (tx : Transaction) (r : Result) (h : check tx = so
           · cases hv; rfl
     rw [this, find?_diffs]
 
+theorem insertSorted_perm (k : Bytes) (l : List Bytes) : (KV.insertSorted k l).Perm (k :: l) := by
+  induction l with
+  | nil => exact List.Perm.refl _
+  | cons x r ih =>
+    unfold KV.insertSorted
+    split
+    · exact List.Perm.refl _
+    · exact (List.Perm.cons x ih).trans (List.Perm.swap k x r)
+
+theorem sortStrings_perm (l : List Bytes) : (KV.sortStrings l).Perm l := by
+  induction l with
+  | nil => exact List.Perm.refl _
+  | cons x r ih =>
+    unfold KV.sortStrings
+    rw [List.foldr_cons]
+    exact (insertSorted_perm x _).trans (List.Perm.cons x ih)
+
+/-- **message_names_the_differences.**  The UNBALANCED message is assembled from exactly the
+    entries of the difference map, each commodity once, with the value the map holds for it
+    (so, by `message_numbers_exact`, the exact absolute residual), in sorted order. -/
+theorem message_names_the_differences (d : Sums) (hn : (KV.keys d).Nodup) :
+    ((sortedDifferences d).map (·.1)).Perm (KV.keys d) ∧
+    ∀ kv ∈ sortedDifferences d, KV.find? d kv.1 = some kv.2 := by
+  constructor
+  · unfold sortedDifferences
+    rw [List.map_map]
+    have : ((fun x : Bytes × Dec => x.1) ∘ fun k => (k, KV.get d k Dec.zero)) = id := by funext k; rfl
+    rw [this, List.map_id]
+    exact sortStrings_perm _
+  · intro kv hkv
+    unfold sortedDifferences at hkv
+    obtain ⟨k, hk, rfl⟩ := List.mem_map.1 hkv
+    have hk' : k ∈ KV.keys d := (sortStrings_perm _).mem_iff.1 hk
+    simp only
+    rw [KV.get_eq_find?]
+    cases hf : KV.find? d k with
+    | some v => rfl
+    | none =>
+      exfalso
+      clear hkv hk hn
+      induction d with
+      | nil => simp [KV.keys] at hk'
+      | cons a r ih =>
+        obtain ⟨k0, v0⟩ := a
+        by_cases h0 : k0 = k
+        · simp [KV.find?, h0] at hf
+        · simp only [KV.find?, h0, if_false] at hf
+          simp only [KV.keys, List.map_cons, List.mem_cons] at hk'
+          rcases hk' with e | e
+          · exact h0 e.symm
+          · exact ih e hf
+
 /-- **verdict_notation_invariant.**  Two transactions whose postings have the same exact
     rational image (same kinds, commodities and values — however the numbers were written,
     wherever the signs and commodities stood) receive the same diagnostic. -/
